@@ -5,6 +5,7 @@ import (
 	gocontext "context"
 	"encoding/json"
 	"fmt"
+	"os"
 	"strconv"
 	"strings"
 
@@ -23,7 +24,7 @@ func init() {
 		Prop:   "C05",
 		Run:    run,
 		Replay: replay,
-		Rule: "Part A/B (E1): every byte string up to the length bound over a 28-symbol alphabet (incl. '%' and '%s': error texts are built with format strings), and every proper prefix and single-byte substitution of a corpus of expressions, is given to the three machine constructors (expr, path_eval, leafref) under a step horizon; every machine obtained is run on three contexts (virtual identity tree, typed tree, nil-free empty tree). " +
+		Rule: "Part A/B (E1): every byte string up to the length bound over a 28-symbol alphabet (incl. '%' and '%s': error texts are built with format strings), and every proper prefix and single-byte substitution of a corpus of expressions, is given to the machine constructors (expr, path_eval, leafref, and the custom-function forms: expr with custom functions allowed, path_eval with a user function checker that vouches for every name / for none) under a step horizon; after every constructor and every run the lock bookkeeping of the sync shim must show no lock held (a leaked lock makes a later constructor block for ever); every machine obtained is run on three contexts (virtual identity tree, typed tree, nil-free empty tree). " +
 			"Part C (E2, fault enumeration): for every corpus expression with data-tree access, run fault-free, count the N callbacks, then for every k<=N (and every pair k<j in the thorough tier) make those callbacks fail with unique errors. " +
 			"Non-trivial = the input got past the first token (constructor) or the run touched the data tree / the stack (runs).",
 		Bound: map[string]string{
@@ -67,8 +68,26 @@ func build(grammar, src string) (m *xpath.Machine, err error) {
 		return expr.NewExprMachine(src, nil)
 	case "path_eval":
 		return path_eval.NewPathEvalMachine(src, nil, "loc")
+	case "expr+custom":
+		return expr.NewExprMachineWithCustomFunctions(src, nil)
+	case "path_eval+checker-yes":
+		// a user function checker that vouches for every unknown function name ...
+		return path_eval.NewPathEvalMachineWithCustomFns(src, nil, "loc", func(name string) (*xpath.Symbol, bool) { return xpath.NewDummyFnSym(name), true })
+	case "path_eval+checker-no":
+		// ... and one that knows none
+		return path_eval.NewPathEvalMachineWithCustomFns(src, nil, "loc", func(name string) (*xpath.Symbol, bool) { return nil, false })
 	}
 	return leafref.NewLeafrefMachine(src, nil)
+}
+
+// leaked reports locks still held after a call has returned (the next
+// constructor that needs the lock would never return) and gives them back.
+func leaked(grammar, src, what string) []engine.Violation {
+	if n := verifrt.LeakedLocks(); n > 0 {
+		verifrt.ReleaseLeaked()
+		return []engine.Violation{viol("returns-holding-a-lock:"+what+":"+grammar, grammar, src, fmt.Sprintf("%d lock(s) still held after %s returned: any later call that takes the lock blocks for ever", n, what), nil)}
+	}
+	return nil
 }
 
 func viol(key, grammar, src, detail string, faults []int) engine.Violation {
@@ -91,6 +110,13 @@ func construct(grammar, src string) (m *xpath.Machine, vs []engine.Violation, ou
 	}()
 	hit := verifrt.HorizonHit
 	verifrt.SetHorizon(0)
+	if isSelfDeadlock(panicked) {
+		verifrt.ReleaseLeaked()
+		return nil, []engine.Violation{viol("constructor-blocks-for-ever:"+grammar, grammar, src, fmt.Sprint(panicked), nil)}, "blocks"
+	}
+	if lv := leaked(grammar, src, "constructor"); lv != nil {
+		return nil, lv, "leaks-lock"
+	}
 	switch {
 	case hit:
 		return nil, []engine.Violation{viol("constructor-nonterminating:"+grammar, grammar, src, "step horizon exceeded", nil)}, "nonterminating"
@@ -127,6 +153,11 @@ func construct(grammar, src string) (m *xpath.Machine, vs []engine.Violation, ou
 	return m, nil, "machine"
 }
 
+func isSelfDeadlock(p any) bool {
+	_, ok := p.(verifrt.SelfDeadlock)
+	return ok
+}
+
 func panicClass(p any) string {
 	s := fmt.Sprint(p)
 	s = strings.Map(func(r rune) rune {
@@ -142,11 +173,11 @@ func panicClass(p any) string {
 }
 
 type runObs struct {
-	err                 string
+	err                  string
 	numErr, strErr, bErr string
-	panicked            any
-	hit                 bool
-	calls               int
+	panicked             any
+	hit                  bool
+	calls                int
 }
 
 func runOn(m *xpath.Machine, t *mock.Tree, faults []int) (o runObs) {
@@ -197,6 +228,13 @@ var idTree = mock.NewTree()
 func checkRun(grammar, src string, m *xpath.Machine, faults []int) (vs []engine.Violation, outcome string, calls int) {
 	o := runOn(m, idTree, faults)
 	calls = o.calls
+	if isSelfDeadlock(o.panicked) {
+		verifrt.ReleaseLeaked()
+		return []engine.Violation{viol("run-blocks-for-ever", grammar, src, fmt.Sprint(o.panicked), faults)}, "blocks", calls
+	}
+	if lv := leaked(grammar, src, "run"); lv != nil {
+		return lv, "leaks-lock", calls
+	}
 	switch {
 	case o.hit:
 		return []engine.Violation{viol("run-nonterminating", grammar, src, "step horizon exceeded", faults)}, "nonterminating", calls
@@ -228,7 +266,10 @@ func checkRun(grammar, src string, m *xpath.Machine, faults []int) (vs []engine.
 }
 
 func run(c *engine.Ctx) {
-	grammars := []string{"expr", "path_eval", "leafref"}
+	// one goroutine: a lock that is not free can never be taken (VERIF_SEQ_OFF=1 switches the
+	// detection off, which is how the engine's watchdog for blocked workers is exercised)
+	verifrt.SetSequential(os.Getenv("VERIF_SEQ_OFF") == "")
+	grammars := []string{"expr", "path_eval", "leafref", "expr+custom", "path_eval+checker-yes", "path_eval+checker-no"}
 	maxLen := 4
 	if !c.Quick() {
 		maxLen = 5
@@ -379,6 +420,7 @@ func replay(c *engine.Ctx, sub string, raw json.RawMessage) []engine.Violation {
 	if err != nil {
 		return []engine.Violation{{Key: "harness-bad-replay-file"}}
 	}
+	verifrt.SetSequential(true)
 	m, vs, _ := construct(r.Grammar, src)
 	if m != nil {
 		v2, _, _ := checkRun(r.Grammar, src, m, r.Faults)
